@@ -3,7 +3,7 @@ state) and log what every public call returned.  No expectations."""
 from __future__ import annotations
 
 ARGS = {1: ((-1,), {}), 2: ((-2,), {}), 3: ((1,), {}), 4: ((1.0,), {}), 5: ((), {"x": 1, "y": 2}),
-        6: ((), {"y": 2, "x": 1}), 7: ((), {"x": -1})}
+        6: ((), {"y": 2, "x": 1}), 7: ((), {"x": -1}), 8: ((13,), {})}      # 13: the harness classes' __init__ raises
 
 
 def parity(args, kwargs):
@@ -16,6 +16,8 @@ def fresh_classes():
 
     class Rec:
         def __init__(self, *args, **kwargs):
+            if args and args[0] == 13:
+                raise ValueError("unlucky argument")         # a construction that fails
             d = self.__dict__
             d["inits"] = d.get("inits", 0) + 1
             d.setdefault("first", (args, dict(kwargs)))
